@@ -61,9 +61,9 @@ func (o *c19TimeOps) class(e ast.Expr, subst map[types.Object]ast.Expr, depth in
 		}
 	case *ast.SelectorExpr:
 		if fieldOf(info, x) == o.tsFld {
-			root := objOf(info, x.X)
+			root := c19Target(info, ast.Unparen(x.X))
 			if a, ok := subst[root]; ok && root != nil {
-				root = objOf(info, ast.Unparen(a))
+				root = c19Target(info, ast.Unparen(a))
 			}
 			if root != nil && o.sVars[root] {
 				return 'S'
